@@ -3,6 +3,7 @@
 package c03
 
 import (
+	"sync"
 	"bytes"
 	"fmt"
 	"math/rand"
@@ -394,6 +395,64 @@ func TestVerifC03(t *testing.T) {
 				c.Sample(map[string]any{"url": target, "response": ev.Trunc(string(e.Spec.Bytes()), 300), "reference": ref.Class, "chain": ref.Chain, "requests_seen": len(reqs)})
 			}
 		}
+		// the same web once more, eight fetches at a time: what a fetch returns depends on its own exchange, not on what else is
+		// in flight (only the outcome is judged here; the request log cannot be attributed to single fetches)
+		type burstRes struct {
+			target string
+			doc    map[string]any
+			src    *url.URL
+			err    error
+			pan    string
+		}
+		targets := make([]string, 48)
+		for i := range targets {
+			targets[i] = w.urls[r.Intn(len(w.urls))]
+		}
+		results := make([]burstRes, len(targets))
+		var bw sync.WaitGroup
+		for g := 0; g < 8; g++ {
+			bw.Add(1)
+			go func(g int) {
+				defer bw.Done()
+				for i := g; i < len(targets); i += 8 {
+					func() {
+						defer func() {
+							if p := recover(); p != nil {
+								results[i].pan = fmt.Sprint(p)
+							}
+						}()
+						u, _ := url.Parse(targets[i])
+						e := w.entries[key(u.Host, u.RequestURI())]
+						results[i].target = targets[i]
+						if e.Profile == "wf" {
+							results[i].doc, results[i].src, results[i].err = jtp.Get(u, "application/jrd+json", wfTolerated, uint(budget))
+						} else {
+							results[i].doc, results[i].src, results[i].err = jtp.Get(u, apAccept, apTolerated, uint(budget))
+						}
+					}()
+				}
+			}(g)
+		}
+		bw.Wait()
+		for _, br := range results {
+			u, _ := url.Parse(br.target)
+			e := w.entries[key(u.Host, u.RequestURI())]
+			ref := w.reference(br.target, budget, e.Profile)
+			d := map[string]any{"url": br.target, "budget": budget, "profile": e.Profile, "reference": ref.Class, "why": ref.Why, "chain": ref.Chain, "api": "jtp.Get, 8 at a time"}
+			c.R.Evaluations++
+			switch {
+			case br.pan != "":
+				c.Violation("fetch:burst:panic", fmt.Sprintf("fetching %s among seven other fetches panicked: %s", br.target, br.pan), d)
+			case ref.Class == gen.MustAccept && br.err != nil:
+				c.Violation("fetch:burst:rejected-good-exchange", fmt.Sprintf("a canonical exchange (%s) was rejected while other fetches were in flight: %v", br.target, br.err), d)
+			case ref.Class == gen.MustAccept && (!reflect.DeepEqual(br.doc, ref.Doc) || br.src == nil || br.src.String() != ref.Source):
+				c.Violation("fetch:burst:wrong-document", fmt.Sprintf("fetching %s among other fetches returned another document or source (%v)", br.target, br.src), d)
+			case ref.Class == gen.MustReject && br.err == nil:
+				c.Violation("fetch:burst:accepted-bad-exchange", fmt.Sprintf("a document was returned for %s, whose exchange does not qualify (%s)", br.target, ref.Why), d)
+			}
+			c.Count("burst_fetches", 1)
+		}
+		s.WaitIdle(2e9)
 		c.Count("requests_logged", int64(s.LogLen()))
 		s.ResetLog()
 	}
